@@ -37,7 +37,7 @@ CHECKS = {
         'All sequences of <=2 (quick) / <=3 (thorough) token spellings from a 70-symbol alphabet chosen per parser branch (plus depth 3 / 4 over '
         'smaller cores), each embedded in 12 parser contexts (+5 mid-construct contexts for the full alphabet) under all parseComments x validate settings, are parsed, serialised, reparsed and '
         'reserialised by the real entry points under a watchdog; all byte strings <=3 over 11 byte classes behind 9 BOM/@charset prefixes x 4 encoding '
-        'arguments; the complete table of codec names Python registers (as @charset name in text and bytes, as encoding argument); single tokens of up to 20 000 characters; every @import graph over <=3 virtual sheets x 5 fetcher behaviours; 22 nesting/flat families measured with a deterministic call '
+        'arguments; the complete table of codec names Python registers, each also in capitals (as @charset name in text and bytes, as encoding argument); single tokens of up to 20 000 characters; every @import graph over <=3 virtual sheets x 7 fetcher behaviours (two of them re-enter the parser that is parsing); 22 nesting/flat families measured with a deterministic call '
         'counter against a degree-4 bound up to n=14/24 (nesting), 64/256 (flat) and once at depth 100. Exhaustive within these bounds.',
         'Trusted: the token alphabet/contexts reach the parser states that matter (vacuity guard: distinct log-message kinds and outcome classes); work is counted in Python calls, not seconds.',
     ),
@@ -45,7 +45,7 @@ CHECKS = {
         'exploration',
         'deviation-bounded exhaustive enumeration: abstract sheets from rule menus x all spellings with <=k decision sites off canonical x all parser option settings, against the projection predicted by the abstract sheet',
         'DESIGN.md 3/C02',
-        'Every single rule form of the menus (18 selectors incl. constructs nested in :not() and namespaced names x 20 declarations, @media incl. nested, @import, @namespace, @page with margin boxes, '
+        'Every single rule form of the menus (22 selectors incl. constructs nested in :not(), namespaced names and names explicitly in no / any namespace x 22 declarations, @media incl. nested, @import, @namespace, @page with margin boxes, '
         '@font-face, @charset, unknown at-rules, comments) and every valid ordered sequence of <=2 (quick) / <=3 (thorough) rules over a 12-rule core is '
         'rendered in every spelling that deviates from the canonical one at <=1 (quick) / <=2 (thorough, single rules) decision sites (white-space '
         'variants, comments at grammar gaps, letter case of case-insensitive words, quote style, hex and simple escapes) and parsed under all four '
@@ -61,7 +61,8 @@ CHECKS = {
         'through the real parser with a virtual fetcher; marker bytes that decode differently under each of eleven encodings make the decoder '
         'actually used observable at every level, which is compared with the reference ladder (override > transport > BOM/@charset > referring sheet > '
         'UTF-8). Every (text position x unrepresentable character x target encoding x initial @charset state) is serialised, decoded in the reported '
-        'encoding and reparsed; every sequence of <=2/3 encoding assignments is explored. Exhaustive over the stated tables.',
+        'encoding and reparsed; every sequence of <=2/3 encoding assignments is explored; imports resolved after the parse (6 ways x 9 referrers); 5 byte order marks x 14 first '
+        'characters x 5 referrers; every codec name Python registers x 5 ways of naming it (refused and unchanged, or reported, serialisable and decodable). Exhaustive over the stated tables.',
         'Trusted: mc/model/ref_ladder.py (the ladder as stated in the property), Python codecs; utf-8-sig == utf-8; leading U+FEFF in text-delivered content is not a BOM.',
     ),
     'C03': (
@@ -73,6 +74,8 @@ CHECKS = {
         'kept) must be equal and the bytes identical; every rule, declaration block, selector, media list and property value text is set on a fresh '
         'object of its class. Every string of length <=3 (quick) / <=4 (thorough) over 18 content characters is written with minimal CSS escaping in 13 '
         'positions (string values, url() bare/quoted, @import, @namespace, attribute values, comments, class/id/type/property names written with escapes). '
+        'Every history of <=2 (quick) / <=3 (thorough) accepted DOM edits out of a menu of 61 (properties, priorities, values, selectors, media, imports, namespaces, '
+        'rule insertion/deletion) applied to a sheet holding every rule kind is judged by the same round trip (3 041 / ~125 000 accepted histories). '
         'Failing contents are classified by one-step counterfactuals over character classes. Exhaustive within the bounds.',
         'Trusted: mc/model/proj.py; losslessness is judged under preferences that filter nothing (keepEmptyRules, no variable resolution), the fixpoint also under the defaults; 0<unit> == 0.',
     ),
@@ -92,7 +95,7 @@ CHECKS = {
         'exploration',
         'deviation-bounded exhaustive enumeration of selectors generated from a bounded CSS3 selector grammar in all spellings with <=k site deviations, against by-construction specificity; explicit-state search over selector-list operations',
         'DESIGN.md 3/C16',
-        'All compounds of an optional type/universal selector plus <=2 (quick) / <=3 (thorough) of 53 abstract simple selectors, and all 2- (3-) compound '
+        'All compounds of an optional type/universal selector plus <=2 (quick) / <=3 (thorough) of 60 abstract simple selectors (attribute values that read like selector syntax among them), and all 2- (3-) compound '
         'selectors over a 40-compound core x 4 combinators, are rendered in every spelling with <=1 (<=2) deviations (white space, comments, case of '
         ':not and pseudo names, escapes, quote style) and parsed stand-alone and attached to sheets with/without default namespace; specificity must '
         'equal the by-construction reference and be invariant, the serialisation must reparse to the same item sequence and be a fixpoint. Selector '
@@ -107,7 +110,7 @@ CHECKS = {
         'variants, queries, invalid members) from two seeds per owner kind, closure under <=3 (quick) / <=4 (thorough) entries, raising mode; after '
         'every transition accept/reject, content, item(i), length, iteration, reparse of mediaText, wellformed flag, owner rule text and the parser hand-back '
         'buffers are compared with the reference. All type lists <=3/4 over 12 symbols; all generated queries ({-,not,only} x type x <=2 features) in '
-        'every 1-deviation spelling; 25 malformed members x position x neighbours.',
+        'every 1-deviation spelling; 25 malformed members x position x neighbours; from every reached list the text of every member query is set to 9 texts in both error modes (probe).',
         'Trusted: mc/model/ref_medialist.py (ordered set with "all" absorption, written from the statement). A bare IndexError from item assignment with a bad index is pinned by the repository tests and not judged.',
     ),
     'C18': (
@@ -117,7 +120,8 @@ CHECKS = {
         'Every literal sign x 9 integer parts x all fraction strings <=3 (quick) / <=4 (thorough) digits (plus lengths 5-6 over {0,1,5,9}) x 8 units x '
         'omitLeadingZero; all 4096 #rgb, all doubled #rrggbb and their neighbours, {0,1,8,a,F}^6, all 148 keywords, rgb()/hsl() argument products x '
         'minimizeColorHash; every string <=3 characters over 18 characters as string and url() content in every quoting form; all <=3-component values '
-        'with every separator assignment. Each is parsed as PropertyValue and inside a sheet, serialised under each preference setting and reparsed; '
+        'with every separator assignment (identifiers ending in an escaped blank / U+00A0 among the components); escapes followed by non-CSS white space, the backslash written as \\5c, '
+        'every delimiter of an unquoted URL written as a hexadecimal escape, integers beyond 2^53, 31x31 reuse pairs. Each is parsed as PropertyValue and inside a sheet, serialised under each preference setting and reparsed; '
         'value, unit, channels, content and separator sequence are compared with the references. Exhaustive within the bounds.',
         'Trusted: mc/model/ref_number.py (Fraction arithmetic, CSS3 colour table typed from the specification), mc/model/ref_value.py; accessors may hand out content or its backslash-escaped spelling.',
     ),
